@@ -25,7 +25,15 @@ def subsample_case(draw):
     for d in incs:
         times.append(times[-1] + d)
     k = draw(st.integers(1, 3))
-    series = [[draw(st.integers(0, 50)) for _ in range(n)] for _ in range(k)]
+    series = []
+    for _ in range(k):
+        kind = draw(st.sampled_from(['int', 'int', 'float', 'mixed']))      # counts, fractions, or a list that starts with an int and goes on with fractions
+        if kind == 'int':
+            series.append([draw(st.integers(0, 50)) for _ in range(n)])
+        elif kind == 'float':
+            series.append([draw(st.integers(0, 400)) / 8.0 for _ in range(n)])
+        else:
+            series.append([draw(st.integers(0, 5))] + [draw(st.one_of(st.integers(0, 50), st.integers(0, 400).map(lambda z: z / 16.0))) for _ in range(n - 1)])
     m = draw(st.integers(1, 10))
     reps = []
     cur = times[0] + draw(st.sampled_from([0, 0, 0.1, 0.5]))
@@ -68,7 +76,8 @@ def prop_subsample(case):
         res = EoN.subsample(conv(report), conv(times), *[conv(s) for s in series])
         if len(series) == 1:
             res = (res,)
-        got = [[int(x) for x in r] for r in res]
+        got = [[float(x) for x in r] for r in res]
+        want = [[float(x) for x in w] for w in want]
         if len(got) != len(series):
             fails.append(Failure('subsample:arity', '%d series in, %d out' % (len(series), len(got))))
         else:
@@ -84,7 +93,7 @@ def prop_subsample(case):
     eq = any(r in times for r in report)
     beyond = any(r > times[-1] for r in report)
     return Result(fails, nontrivial=len(times) >= 2 and (ties or eq or beyond),
-                  classes=['series=%d' % len(series)] + (['ties'] if ties else []) + (['report==obs'] if eq else []) + (['beyond-end'] if beyond else []))
+                  classes=['series=%d' % len(series)] + (['int-then-fractions'] if any(isinstance(s_[0], int) and any(isinstance(x, float) and x != int(x) for x in s_) for s_ in series) else []) + (['ties'] if ties else []) + (['report==obs'] if eq else []) + (['beyond-end'] if beyond else []))
 
 
 @st.composite
@@ -117,6 +126,28 @@ def degree_case(draw):
     gc = draw(gen.graph_case(1, 12, labels=('int', 'str', 'tuple'), weighted=False, selfloops=True))
     return {'gc': gc, 'x': draw(st.one_of(st.sampled_from([1.0, 0.5, 0.25]), st.floats(0.05, 1.0, allow_nan=False))),
             'T': draw(st.sampled_from([0.2, 0.5, 1.0])), 'tau': draw(gen.pos_rates), 'gamma': draw(gen.pos_rates), 'rewire': draw(st.integers(0, 40))}
+
+
+@st.composite
+def big_degree_case(draw):
+    """22-160 nodes (counts recovered from proportions, e.g. int(N*Pk[k]), only go wrong for particular N and class sizes);
+    the edge list is a pure function of three drawn integers"""
+    import random
+    n = draw(st.integers(22, 160))
+    kind = draw(st.sampled_from(['cycle+extras', 'gnp', 'gnp', 'stars']))
+    R = random.Random(draw(st.integers(0, 10 ** 6)))
+    if kind == 'cycle+extras':
+        m = n - 2 * draw(st.integers(1, 4))
+        es = [[i, (i + 1) % m] for i in range(m)] + [[j, j + 1] for j in range(m, n - 1, 2)]
+    elif kind == 'gnp':
+        c = draw(st.sampled_from([1.0, 2.0, 4.0]))
+        es = [[i, j] for i in range(n) for j in range(i + 1, n) if R.random() < c / n]
+    else:
+        hubs = draw(st.integers(1, 5))
+        es = [[R.randrange(hubs), j] for j in range(hubs, n) if R.random() < 0.8]
+    gc = {'nodes': list(range(n)), 'edges': es, 'ew': None, 'nw': None, 'directed': False}
+    return {'gc': gc, 'x': draw(st.sampled_from([1.0, 0.5, 0.9])), 'T': draw(st.sampled_from([0.2, 0.5, 1.0])), 'tau': draw(gen.pos_rates),
+            'gamma': draw(gen.pos_rates), 'rewire': draw(st.integers(0, 40))}
 
 
 def prop_degree(case):
@@ -235,3 +266,4 @@ def run(ctx):
         run_hypothesis(ctx, 'get_time_shift', shift_case(), prop_shift, 1000 if quick else 15000)
     if not only or 'degree' in only:
         run_hypothesis(ctx, 'degree', degree_case(), prop_degree, 1000 if quick else 15000)
+        run_hypothesis(ctx, 'degree', big_degree_case(), prop_degree, 300 if quick else 5000, rounds=2)
